@@ -9,6 +9,7 @@ package main
 
 import (
 	"bytes"
+	"context"
 	"encoding/json"
 	"fmt"
 	"os"
@@ -20,6 +21,7 @@ import (
 
 	"bazil.org/fuse"
 	"github.com/superfly/litefs"
+	lhttp "github.com/superfly/litefs/http"
 	"github.com/superfly/litefs/verifharness/core"
 	"github.com/superfly/litefs/verifharness/sim"
 )
@@ -46,7 +48,23 @@ type facts struct {
 
 func factsOf(n *sim.Node, l sim.Layout) facts { return factsUpTo(n, l, -1) }
 
+// factsUpTo reads position, image and log until two consecutive readings agree: LiteFS's own
+// checkpoint after a role change runs on another goroutine, and a reading that overlaps it (database
+// file read before, WAL read after the checkpoint) is the harness's tear, not a change of the image.
 func factsUpTo(n *sim.Node, l sim.Layout, maxFrames int) facts {
+	prev := factsOnce(n, l, maxFrames)
+	for i := 0; i < 200; i++ {
+		time.Sleep(2 * time.Millisecond)
+		cur := factsOnce(n, l, maxFrames)
+		if cur == prev {
+			return cur
+		}
+		prev = cur
+	}
+	return prev
+}
+
+func factsOnce(n *sim.Node, l sim.Layout, maxFrames int) facts {
 	var f facts
 	if db := n.Store.DB("db"); db != nil {
 		f.Pos = db.Pos().String()
@@ -239,7 +257,7 @@ func runEdge(rep *core.Report, e edge, l sim.Layout) {
 	t0 := factsOf(n1.Node, l) // committed state before the open transaction
 	victim := n1
 	vconn, vpg := conn, pg
-	if e.Role == "replica" {
+	if e.Role == "replica" || e.Role == "exholder" {
 		n2, err := cl.Start("n2", sim.ClusterNodeOpts{Candidate: false})
 		if err != nil {
 			core.Infra("start n2: %v", err)
@@ -255,6 +273,37 @@ func runEdge(rep *core.Report, e edge, l sim.Layout) {
 		}
 		if e.Mode == "wal" {
 			_ = vconn.OpenSHM()
+		}
+		if e.Role == "exholder" {
+			// the replica is granted the halt lock (it is writable now), the lock ends on the primary the
+			// way an expiry ends it, the primary commits, and that transaction reaches the former holder
+			vdb := n2.Store.DB("db")
+			ctx, cancel := context.WithTimeout(context.Background(), 20*time.Second)
+			hl, err := vdb.AcquireRemoteHaltLock(ctx, 424242)
+			cancel()
+			if err != nil {
+				core.Infra("acquire halt lock on the replica: %v", err)
+			}
+			if !vdb.Writeable() {
+				core.Infra("halt lock holder is not writable")
+			}
+			n1.Store.DB("db").ReleaseHaltLock(context.Background(), hl.ID)
+			if e.Mode == "wal" {
+				err = commitW(pg, sim.Plan{Kind: "w", Ns: 2, M: []int{1}, Out: "commit", V: 8, Wal: true}, 6)
+			} else {
+				err = commitJ(pg, sim.Plan{Kind: "j", Ns: 2, M: []int{1}, Out: "commit", Fin: "DELETE", V: 8})
+			}
+			if err != nil {
+				core.Infra("primary commit after the halt lock ended: %v", err)
+			}
+			if err := cl.WaitPos("n2", "db", n1.Store.DB("db").Pos(), 20*time.Second); err != nil {
+				core.Infra("former holder did not receive the primary's transaction: %v", err)
+			}
+			if vdb.Writeable() {
+				violate(rep, "C07.authority-ends-with-halt-lock", "former-holder-still-writable", map[string]any{
+					"remote_halt_lock": vdb.RemoteHaltLock(), "position": vdb.Pos().String()}, e, l)
+				return
+			}
 		}
 	} else {
 		// advance the open transaction to the protocol state, then withdraw authority
@@ -287,6 +336,9 @@ func runEdge(rep *core.Report, e edge, l sim.Layout) {
 		if err != nil {
 			core.Infra("advance to %s: %v", e.PS, err)
 		}
+		if e.Op == "DBRemoveRace" || e.Op == "ImportRace" {
+			goto demoted // authority is withdrawn in the middle of the operation instead
+		}
 		cl.Lease.AllowOnly()
 		n1.Store.Demote()
 		deadline := time.Now().Add(20 * time.Second)
@@ -298,13 +350,14 @@ func runEdge(rep *core.Report, e edge, l sim.Layout) {
 			time.Sleep(200 * time.Microsecond)
 		}
 	}
+demoted:
 	db := victim.Store.DB("db")
-	if db == nil || db.Writeable() {
+	if db == nil || (db.Writeable() && e.Op != "DBRemoveRace" && e.Op != "ImportRace") {
 		core.Infra("victim is still writable")
 	}
 	// the image at the node's position: frames of a complete but uncaptured transaction do not count
 	limit := -1
-	if e.Role != "replica" {
+	if e.Role != "replica" && e.Role != "exholder" {
 		limit = pg.CommittedFrames()
 	}
 	before := factsUpTo(victim.Node, l, limit)
@@ -321,6 +374,24 @@ func runEdge(rep *core.Report, e edge, l sim.Layout) {
 		case "DBRemove":
 			c2 := victim.Connect("db", 43)
 			operr = c2.RemoveDB()
+		case "DBRemoveRace":
+			// the unlink starts on the primary; when Drop creates its transaction file the lease is lost
+			n1.OS.Before = func(ev sim.OSEvent) error {
+				if ev.Label == "DROP:LTX" && ev.Call == "Create" {
+					cl.Lease.AllowOnly()
+					n1.Store.Demote()
+					for t0 := time.Now(); n1.Store.IsPrimary() && time.Since(t0) < 10*time.Second; {
+						time.Sleep(200 * time.Microsecond)
+					}
+				}
+				return nil
+			}
+			c2 := victim.Connect("db", 43)
+			operr = c2.RemoveDB()
+			n1.OS.Before = nil
+			if n1.Store.IsPrimary() {
+				core.Infra("the drop did not reach the point at which authority is withdrawn")
+			}
 		case "JCreate":
 			if vconn.JournalExists() {
 				applicable = false
@@ -363,6 +434,26 @@ func runEdge(rep *core.Report, e edge, l sim.Layout) {
 			}
 		case "WUnlockWrite":
 			operr = vconn.LockSHM(fuse.LockUnlock, 120, 120)
+		case "ImportRace":
+			// the request arrives on the primary and waits for the write lock the open transaction holds;
+			// the lease is lost while it waits
+			im := l.ImageOf([]sim.Content{{V: 56, Sz: 1, Wal: false}})
+			done := make(chan error, 1)
+			go func() {
+				done <- lhttp.NewClient().Import(context.Background(), n1.URL, "db", bytes.NewReader(im.Pages[1]))
+			}()
+			time.Sleep(100 * time.Millisecond)
+			cl.Lease.AllowOnly()
+			n1.Store.Demote()
+			for t0 := time.Now(); n1.Store.IsPrimary() && time.Since(t0) < 10*time.Second; {
+				time.Sleep(200 * time.Microsecond)
+			}
+			select {
+			case operr = <-done:
+			case <-time.After(20 * time.Second):
+				operr = nil
+				violate(rep, "C07.no-hang", "import-still-waiting-after-demotion", map[string]any{}, e, l)
+			}
 		case "Import":
 			im := l.ImageOf([]sim.Content{{V: 55, Sz: 1, Wal: false}})
 			operr = db.Import(sim.Ctx(), bytes.NewReader(im.Pages[1]))
